@@ -126,9 +126,9 @@ class Chk:
                 self.sink.append(['registry|not-empty-after-call', what])      # not cleared here: the follow-up edit
                                                                                # must show what the residue does
 
-    def same(self, what, got, ref):
+    def same(self, what, got, ref, kind='edit|follow-up-differs-from-alone'):
         if self.sink is not None and got != ref:
-            self.sink.append(['edit|follow-up-differs-from-alone', what, got[:120], ref[:120]])
+            self.sink.append([kind, what, got[:160], ref[:160]])
 
 
 NOCHK = Chk()
@@ -138,6 +138,69 @@ def copy_opts(o):
     """per-call options with every mutable value (list) copied"""
     return {k: (list(v) if isinstance(v, list) else v) for k, v in o.items()}
 
+
+# -- option-dependent READ accessors, called on the SAME long-lived node objects of the thread -----------------------
+
+RO_SRC = ('''class C:
+    # pre
+    def f(self):  # line
+        """doc
+        string"""
+        return (1)  # ret
+
+    x = {a, b}
+''')
+
+
+def _ro(F, st):
+    """the thread's long-lived, never modified tree (the reference run of an edit has none: fresh tree)"""
+    if st is None:
+        return F(RO_SRC, 'exec')
+    if 'ro' not in st:
+        st['ro'] = F(RO_SRC, 'exec')
+    return st['ro']
+
+
+def _mk_read(name, read, takes_options):
+    """`read(tree, o) -> str`.  The read on the long-lived node must equal the same read on a fresh tree made in the
+    same thread at the same moment (same effective options): a memoised answer keyed by anything but the effective
+    option values breaks exactly this."""
+    def safe(tree, o):
+        try:
+            r = read(tree, o)
+            return r if isinstance(r, str) else repr(r)
+        except Exception as e:
+            return _exc(e)
+
+    def edit(F, o, st, chk):
+        got = safe(_ro(F, st), o)
+        chk.api(name)
+        ref = safe(F(RO_SRC, 'exec'), copy_opts(o))
+        chk.api(name)
+        chk.same(f'{name} on a long-lived unmodified node vs the same read on a fresh tree under the same options',
+                 got, ref, 'read|long-lived-node-differs-from-fresh-tree')
+        return got
+    edit.__name__ = '_e_' + name
+    edit.takes_options = takes_options
+    return edit
+
+
+_fn = lambda t: t.body[0].body[0]
+_READS = [
+    _mk_read('own_src_default', lambda t, o: _fn(t).own_src(), False),
+    _mk_read('own_lines_default', lambda t, o: '\n'.join(_fn(t).own_lines()), False),
+    _mk_read('own_src_true', lambda t, o: _fn(t).own_src(docstr=True), False),
+    _mk_read('own_src_false', lambda t, o: _fn(t).own_src(docstr=False), False),
+    _mk_read('own_src_strict', lambda t, o: _fn(t).own_src(docstr='strict'), False),
+    _mk_read('own_src_docstr_expr', lambda t, o: _fn(t).body[0].own_src() + '|' + _fn(t).body[0].value.own_src(), False),
+    _mk_read('own_src_class', lambda t, o: t.body[0].own_src(whole=False), False),
+    _mk_read('get_docstr', lambda t, o: _fn(t).get_docstr(), False),
+    _mk_read('get_line_comment', lambda t, o: repr(_fn(t).get_line_comment()) + repr(_fn(t).body[1].get_line_comment()), False),
+    _mk_read('copy_func', lambda t, o: _fn(t).copy(**o).src, True),
+    _mk_read('copy_ret_value', lambda t, o: _fn(t).body[1].value.copy(**o).src, True),
+    _mk_read('get_slice_class_body', lambda t, o: t.body[0].get_slice(0, 1, 'body', **o).src, True),
+    _mk_read('get_slice_set_empty', lambda t, o: t.body[0].body[1].value.get_slice(0, 0, **o).src, True),
+]
 
 # -- operations that empty their target: behaviour decided by the effective norm_self / norm_get / set_norm ---------
 
@@ -274,7 +337,10 @@ def _e_persist(F, o, st, chk):
 
 EDITS = [_e_copy_par, _e_replace_binop, _e_replace_par, _e_walrus, _e_arglike, _e_cut_stmt, _e_set_del, _e_set_get,
          _e_pep8, _e_elif, _e_docstr, _e_del_empty, _e_body_empty, _e_matchor_empty, _e_matchor_one,
-         *CMP_EDITS, *_UNPAR, _e_persist]
+         *CMP_EDITS, *_UNPAR, *_READS, _e_persist]
+READ_IDS = [EDITS.index(e) for e in _READS]
+NO_OPTS_IDS = [EDITS.index(e) for e in _READS if not e.takes_options]    # accessors without **options: always called bare
+OPT_IDS = [i for i in range(len(EDITS) - 1) if i not in NO_OPTS_IDS]       # fresh-tree edits that take **options
 NORM_IDS = [EDITS.index(e) for e in NORM_EDITS]
 PARS_IDS = [EDITS.index(e) for e in PARS_EDITS]
 CMP_IDS = [EDITS.index(e) for e in CMP_EDITS]
@@ -383,6 +449,8 @@ class Gen:
                 kv = self.kvs('call')
                 if eid in CMP_IDS:
                     kv = self.with_op(kv, 0.5, 0.5)
+                if eid in NO_OPTS_IDS:
+                    kv = []
                 out.append(['call', kv, eid])
             elif c < 0.60:
                 out.append(['set', self.kvs('set')])
@@ -588,7 +656,7 @@ class Runner:
                 self.anomalies.append(['call|tree-changed-by-rejected-edit', EDIT_NAMES[eid], st[1]])
             self.trace.append(self.err_obs(pre))
             raise ProgRaise()
-        if eid < N_FRESH and c20_domain.MARKER not in opts:     # with the marker the options were not validated
+        if eid < N_FRESH and eid not in NO_OPTS_IDS and c20_domain.MARKER not in opts:     # with the marker the options were not validated
             self.views.append((eid, view_copy, res))
         self.trace.append(['view', view_codes, eff_codes, self.snap()])
 
